@@ -104,7 +104,7 @@ func (c *Container) Add(service *WebService) *Container {
 
 	// If not registered on root then add specific mapping
 	if !c.isRegisteredOnRoot {
-		c.isRegisteredOnRoot = c.addHandler(service, c.ServeMux)
+		c.isRegisteredOnRoot = c.addHandler(service, c.ServeMux, c.webServices)
 	}
 	c.webServices = append(c.webServices, service)
 	return c
@@ -112,26 +112,31 @@ func (c *Container) Add(service *WebService) *Container {
 
 // addHandler may set a new HandleFunc for the serveMux
 // this function must run inside the critical region protected by the webServicesLock.
+// mapped are the WebServices that already have their HandleFunc on this serveMux.
 // returns true if the function was registered on root ("/")
-func (c *Container) addHandler(service *WebService, serveMux *http.ServeMux) bool {
+func (c *Container) addHandler(service *WebService, serveMux *http.ServeMux, mapped []*WebService) bool {
 	pattern := fixedPrefixPath(service.RootPath())
 	// check if root path registration is needed
 	if "/" == pattern || "" == pattern {
 		serveMux.HandleFunc("/", c.dispatch)
 		return true
 	}
-	// detect if registration already exists
-	alreadyMapped := false
-	for _, each := range c.webServices {
-		if each.RootPath() == service.RootPath() {
-			alreadyMapped = true
-			break
-		}
-	}
-	if !alreadyMapped {
+	// a pattern can be registered only once ; WebServices may share it (same fixed prefix)
+	if !isPatternMapped(pattern, mapped) {
 		serveMux.HandleFunc(pattern, c.dispatch)
-		if !strings.HasSuffix(pattern, "/") {
-			serveMux.HandleFunc(pattern+"/", c.dispatch)
+	}
+	if !strings.HasSuffix(pattern, "/") && !isPatternMapped(pattern+"/", mapped) {
+		serveMux.HandleFunc(pattern+"/", c.dispatch)
+	}
+	return false
+}
+
+// isPatternMapped tells whether addHandler has registered this pattern for one of the WebServices
+func isPatternMapped(pattern string, mapped []*WebService) bool {
+	for _, each := range mapped {
+		registered := fixedPrefixPath(each.RootPath())
+		if registered == pattern || (!strings.HasSuffix(registered, "/") && registered+"/" == pattern) {
+			return true
 		}
 	}
 	return false
@@ -153,7 +158,7 @@ func (c *Container) Remove(ws *WebService) error {
 		if each.rootPath != ws.rootPath {
 			// If not registered on root then add specific mapping
 			if !newIsRegisteredOnRoot {
-				newIsRegisteredOnRoot = c.addHandler(each, newServeMux)
+				newIsRegisteredOnRoot = c.addHandler(each, newServeMux, newServices)
 			}
 			newServices = append(newServices, each)
 		}
